@@ -466,13 +466,17 @@ impl FetchState {
         let mut remotes = BTreeSet::new();
 
         // The valid delegates start with all delegates that this peer
-        // currently has valid references for
+        // currently has valid references for.
+        //
+        // N.b. the local peer is never counted: the threshold was already
+        // lowered by one on its behalf.
+        let local = *handle.local();
         let mut valid_delegates = handle
             .repository()
             .remote_ids()
             .map_err(error::Protocol::RemoteIds)?
             .filter_map(|id| id.ok())
-            .filter(|id| delegates.contains(id))
+            .filter(|id| delegates.contains(id) && *id != local)
             .collect::<BTreeSet<_>>();
         let mut failed_delegates = BTreeSet::new();
 
@@ -583,7 +587,9 @@ impl FetchState {
                         failed_delegates.insert(remote);
                         failures.append(&mut fails)
                     } else {
-                        valid_delegates.insert(remote);
+                        if remote != local {
+                            valid_delegates.insert(remote);
+                        }
                         remotes.insert(remote);
                     }
                 }
